@@ -47,8 +47,8 @@ var plans = map[string]*plan{
 		Rule: "3 of 4 cases: every selected checker applied in a seeded order (name, reverse, shuffle) to the same tree of one corpus package, with a fingerprint of syntax trees, types.Info, shared context, checker registry and astcast sentinels after every Check, and diagnostics (with fixes) compared with the run-alone reference - the first 2 rounds sweep all registered checkers over all corpus packages; 1 of 4 cases: the real CLI under a non-serial seeded schedule with fingerprints taken at context switches; distinct = distinct hash of (flags, visits, order | hand-over sequence); non-trivial = >= 2 checkers on one tree with >= 1 diagnostic, or >= 1 interleaving switch with >= 1 switch-point fingerprint"},
 	"C13": {Race: false, Quick: 1600, Thorough: 12000, Procs: 16, XProc: 16, Level: "exploration",
 		Rule: "a case is one example file of one corpus package under (a) a seeded permutation of the positions of its plain functions inside f.Decls with no re-parse, or (b) a seeded source transformation (plain-function chunks permuted, blank lines / padding declarations inserted, unrelated functions appended) re-parsed and re-type-checked in memory; oracles: diagnostics of every selected non-exempt checker equal the untransformed run (line-shift normalised), and the package's own checker still satisfies the maintainers' /*! */ expectations, which travel with their chunk; distinct = distinct (package, file, permutation, paddings, selection); non-trivial = at least one function moved or padding inserted, and at least one diagnostic to preserve"},
-	"C18": {Race: false, Quick: 1600, Thorough: 60000, Procs: 16, XProc: 32, Level: "fault_enumeration",
-		Rule: "a case is one rule-file scenario on the simulated disk: 1-4 files, each valid / unreadable (EIO, EISDIR, EACCES, vanished after Glob) / torn at a group boundary / torn inside a group / empty / DSL violation / unloadable import, x patterns (paths and globs, spacing, order, no-match) x failOn (subsets, empty entries, unknown values) x legacy failOnError x enable/disable lists over names, tags, #experimental, unknown entries, x 1-2 constructions; even run indices are fault-free, odd ones fault-injecting; distinct = distinct scenario text; non-trivial = a fault fired, an init error is demanded, or a group filter is in play"},
+	"C18": {Race: false, Quick: 6600 + 1600, Thorough: 6600 + 60000, Procs: 16, XProc: 32, Level: "fault_enumeration",
+		Rule: "run indices 0..6599 ENUMERATE the policy table (every single file and every ordered pair of files over 10 file kinds x 6 failOn forms x legacy flag x 5 pattern layouts incl. a pattern matching nothing; default group filter); the remaining cases are sampled: a case is one rule-file scenario on the simulated disk: 1-4 files, each valid / unreadable (EIO, EISDIR, EACCES, vanished after Glob) / torn at a group boundary / torn inside a group / empty / DSL violation / unloadable import, x patterns (paths and globs, spacing, order, no-match) x failOn (subsets, empty entries, unknown values) x legacy failOnError x enable/disable lists over names, tags, #experimental, unknown entries, x 1-2 constructions; even run indices are fault-free, odd ones fault-injecting; distinct = distinct scenario text; non-trivial = a fault fired, an init error is demanded, or a group filter is in play"},
 	"C19": {Race: false, Quick: 400, Thorough: 20000, Procs: 16, XProc: 16, Level: "fault_enumeration",
 		Rule: "(a) a case is one simulated driver process of the go/analysis analyzer: an injected configuration fault (malformed -go, unknown ruleguard failOn, rules pattern without match, empty selection, unparsable parameter) x 1..6 passes x sequential in a seeded order or parallel under a seeded schedule; (b) a case is one real process of go-critic / gocritic / go-critic-analysis / gocritic-analysis on a generated workspace with a configuration fault (both flag dialects) or a workspace fault (torn write, lost write, flipped identifier, mixed package clauses) at package counts 1 and n; distinct = distinct (fault, flags, pass count, order, schedule | binary, args, workspace); every case injects a fault, so every case is non-trivial"},
 }
